@@ -211,7 +211,9 @@ impl<'a> TraceGen<'a> {
         if !self.u.classes.is_empty() && rng.pct(65) {
             rng.pick(&self.u.classes).clone()
         } else {
-            rng.pick(&["java.lang.RuntimeException", "zz.Unknown", "x.Y$Z", "é.É"]).to_string()
+            // (a ':' inside a class or method is legal as long as no blank follows it)
+            rng.pick(&["java.lang.RuntimeException", "zz.Unknown", "x.Y$Z", "é.É", "java.lang.RuntimeException", "zz.Unknown", "x.Y$Z", "é.É",
+                       "app:core.Failure", "a:", "x.a:b", ":a", "p$q.r.Outer$Inner", "a::b"]).to_string()
         }
     }
     fn method_for(&self, rng: &mut Rng, c: &str) -> String {
@@ -219,7 +221,7 @@ impl<'a> TraceGen<'a> {
         if !ms.is_empty() && rng.pct(80) {
             (rng.pick(&ms)).clone()
         } else {
-            rng.pick(&["run", "main", "<init>", "nosuch"]).to_string()
+            rng.pick(&["run", "main", "<init>", "nosuch", "run", "main", "<init>", "nosuch", "a:b", "r:"]).to_string()
         }
     }
     fn line(&self, rng: &mut Rng) -> usize {
@@ -511,7 +513,14 @@ fn sig_queries(out: &mut Out, rng: &mut Rng, dom: bool, u: &Universe, n: usize) 
         out.t(dom, format!("SIG {}", hxs(&d)));
         out.count("q_sig_valid");
         if rng.pct(40) {
-            let c = corrupt_str(rng, &d);
+            let mut c = corrupt_str(rng, &d);
+            // one time in three, two or three independent edits (a stray `;` AND a missing one, …)
+            if rng.pct(33) {
+                for _ in 0..rng.range(1, 3) {
+                    c = corrupt_str(rng, &c);
+                }
+                out.count("q_sig_corrupt_multi");
+            }
             out.t(dom, format!("SIG {}", hxs(&c)));
             out.count("q_sig_corrupt");
         }
@@ -1064,6 +1073,37 @@ pub fn gen_c05(rng: &mut Rng, tier: &str, out: &mut Out) {
     out.add("bounded_exhaustive_lines", total);
 }
 
+/// Member lines with one lone non-ASCII byte before / after / instead of each numeral: bytes that
+/// are "numeric" when read as Latin-1 (² ³ ¹ ¼ ½ ¾) and bytes that are not.
+pub fn lone_byte_number_cases() -> Vec<Vec<u8>> {
+    let line = b"    12:34:void m():56:78 -> x";
+    let mut v = Vec::new();
+    for &b in &[0xB2u8, 0xB3, 0xB9, 0xBC, 0xBD, 0xBE, 0xB1, 0xFF, 0x80, 0xC2, 0xAA] {
+        for (i, c) in line.iter().enumerate() {
+            if c.is_ascii_digit() {
+                for mode in 0..3 {
+                    let mut l = line.to_vec();
+                    match mode {
+                        0 => l.insert(i, b),
+                        1 => l.insert(i + 1, b),
+                        _ => l[i] = b,
+                    }
+                    let mut t = b"o.A -> a:\n".to_vec();
+                    t.extend_from_slice(&l);
+                    t.extend_from_slice(b"\n    void k() -> y\n");
+                    v.push(t);
+                }
+            }
+        }
+        // … and at the start of a return type without a line prefix
+        let mut t = b"o.A -> a:\n    ".to_vec();
+        t.push(b);
+        t.extend_from_slice(b"void m() -> x\n    int f -> g\n");
+        v.push(t);
+    }
+    v
+}
+
 pub fn gen_c06(rng: &mut Rng, tier: &str, out: &mut Out) {
     let th = thorough(tier);
     let n = if th { 160000 } else { 16000 };
@@ -1095,6 +1135,10 @@ pub fn gen_c06(rng: &mut Rng, tier: &str, out: &mut Out) {
             }
         };
         map_op(out, true, &text);
+        out.d("REC".into());
+    }
+    for t in lone_byte_number_cases() {
+        map_op(out, true, &t);
         out.d("REC".into());
     }
     // F2 anchor
@@ -1725,6 +1769,12 @@ pub fn gen_c13(rng: &mut Rng, tier: &str, out: &mut Out) {
         out.d(format!("FRM {}", hxs(&s)));
         sig_queries(out, rng, true, &u, 2);
     }
+    for t in lone_byte_number_cases() {
+        map_op(out, true, &t);
+        out.d("WRITE".into());
+        out.d(format!("FRL {} {} 12 -", hxs("a"), hxs("x")));
+        out.d(format!("MTH {} {}", hxs("a"), hxs("y")));
+    }
     // F4 anchor
     map_op(out, true, b"o.A -> a:\n    1:2:void x():18446744073709551615:0 -> m\n");
     out.d(format!("FRL {} {} 2 -", hxs("a"), hxs("m")));
@@ -2037,10 +2087,13 @@ pub fn gen_c16(rng: &mut Rng, tier: &str, out: &mut Out) {
     let th = thorough(tier);
     let n = if th { 6000 } else { 600 };
     for i in 0..n {
-        let text = if i % 5 == 0 { Vec::new() } else { domain_mapping(rng, &Cfg::domain()) };
+        // every tenth mapping leaves the representable domain (empty names, huge numbers): the three
+        // handles must still agree with the model there
+        let hostile = i % 10 == 1;
+        let text = if i % 5 == 0 { Vec::new() } else if hostile { gen_mapping(rng, &Cfg::hostile()).text } else { domain_mapping(rng, &Cfg::domain()) };
         map_op(out, true, &text);
         let u = universe(&text);
-        sig_queries(out, rng, true, &u, if th { 60 } else { 30 });
+        sig_queries(out, rng, !hostile, &u, if th { 60 } else { 30 });
         let mut s = String::new();
         for _ in 0..rng.below(12) {
             s.push(rng.pick(&['(', ')', 'L', ';', '[', 'I', 'V', 'a', '/', 'é', '日', 'X']));
@@ -2070,6 +2123,33 @@ pub fn gen_c16(rng: &mut Rng, tier: &str, out: &mut Out) {
         }
     }
     out.add("bounded_exhaustive_descriptors", cnt);
+    // bounded-exhaustive malformed parameter lists: every body of up to 5 tokens over L ; [ I a
+    // (stray and missing terminators in every combination), and every string of up to 4 tokens
+    // over ( ) L ; [ a
+    let mut cnt = 0u64;
+    const B: &[char] = &['L', ';', '[', 'I', 'a'];
+    let mut bodies: Vec<String> = vec![String::new()];
+    let mut all: Vec<String> = bodies.clone();
+    for _ in 0..5 {
+        bodies = bodies.iter().flat_map(|b| B.iter().map(move |c| format!("{}{}", b, c))).collect();
+        all.extend(bodies.iter().cloned());
+    }
+    for b in &all {
+        for ret in ["V", "La;"] {
+            out.d(format!("SIG {}", hxs(&format!("({}){}", b, ret))));
+            cnt += 1;
+        }
+    }
+    const A: &[char] = &['(', ')', 'L', ';', '[', 'a'];
+    let mut ws: Vec<String> = vec![String::new()];
+    for _ in 0..4 {
+        ws = ws.iter().flat_map(|b| A.iter().map(move |c| format!("{}{}", b, c))).collect();
+        for w in &ws {
+            out.d(format!("SIG {}", hxs(w)));
+            cnt += 1;
+        }
+    }
+    out.add("bounded_exhaustive_malformed_descriptors", cnt);
 }
 
 pub fn gen_c17(rng: &mut Rng, tier: &str, out: &mut Out) {
@@ -2156,6 +2236,29 @@ fn section_ops(out: &mut Out, rng: &mut Rng, text: &[u8], n_random: usize) {
         emit(out, starts[i], len);
         emit(out, 0, starts[i]);
     }
+    // edges on, inside and right after line terminators (between the CR and the LF of a CRLF, …)
+    let mut edges: Vec<usize> = Vec::new();
+    for (i, &b) in text.iter().enumerate() {
+        if b == b'\r' || b == b'\n' {
+            edges.push(i);
+            edges.push(i + 1);
+        }
+    }
+    edges.dedup();
+    let mids: Vec<usize> = (1..len).filter(|&i| text[i - 1] == b'\r' && text[i] == b'\n').collect();
+    for (x, &a) in mids.iter().enumerate().take(6) {
+        for &b in mids.iter().skip(x).take(6) {
+            emit(out, a, b);
+        }
+    }
+    if !edges.is_empty() {
+        for _ in 0..n_random {
+            let a = rng.pick(&edges);
+            let b = rng.pick(&edges);
+            emit(out, a.min(b), a.max(b));
+            out.count("sections_at_terminators");
+        }
+    }
     for _ in 0..n_random {
         let i = rng.below(k);
         let j = i + rng.below(k - i);
@@ -2241,8 +2344,12 @@ pub fn gen_c18(rng: &mut Rng, tier: &str, out: &mut Out) {
     }
     // sub-mappings (`section`) and clones after the parent has been queried: the identifier is a
     // function of the section's bytes alone
-    for _ in 0..(if th { 300 } else { 40 }) {
-        let text = domain_mapping(rng, &Cfg::domain());
+    for i in 0..(if th { 300 } else { 40 }) {
+        let mut cfg = Cfg::domain();
+        if i % 3 == 0 {
+            cfg.term = Some(if i % 2 == 0 { Term::CrLf } else { Term::Mixed });
+        }
+        let text = domain_mapping(rng, &cfg);
         section_ops(out, rng, &text, 4);
     }
     for (name, text) in corpus_files() {
